@@ -39,6 +39,10 @@ class FakeConn:
             raise Deadlock('recv on an empty connection would block')
         if self.items[0] == 'EOF':
             raise EOFError()
+        if self.items[0] == 'TORN':
+            # the writer was killed in the middle of a message (multiprocessing.Connection._recv)
+            self.items.pop(0)
+            raise OSError('got end of file during message')
         return self.items.pop(0)
 
     def close(self):
@@ -98,6 +102,8 @@ class ScriptedWorker:
         self.queue = []
         if how == 'marker':
             self.conn.items.append((self.counter, False, None, self._id))
+        if how == 'torn':
+            self.conn.items.append('TORN')
         self.conn.items.append('EOF')
         self.box.deaths_left -= 1
         self.box.log.append(('die', self.idx, how))
@@ -122,7 +128,8 @@ class ScriptedWorker:
         box.handed.append((self.idx, x))
         if self.alive and box.deaths_left > 0 and self.idx not in box.immortal:
             if box.choose(2, ('pre-enqueue-death', self.idx)) == 1:
-                how = 'marker' if box.choose(2, ('pre-enqueue-death-kind', self.idx)) == 0 else 'eof'
+                kinds = ('marker', 'eof', 'torn') if box.cfg.get('torn') else ('marker', 'eof')
+                how = kinds[box.choose(len(kinds), ('pre-enqueue-death-kind', self.idx))]
                 self.die(how)
         if not self.alive:
             self.lost.append(x)
@@ -209,6 +216,8 @@ def macro_options(box):
             if not hits_poison and box.deaths_left > 0 and w.idx not in box.immortal:
                 opts.append((k, 'marker'))
                 opts.append((k, 'eof'))
+                if box.cfg.get('torn'):
+                    opts.append((k, 'torn'))      # killed in the middle of writing a (big) result
         per.append(opts)
     out = []
     already = any(cn.ready() for cn in box.pool_conns())
@@ -233,8 +242,8 @@ def canon_state(box, pool, ret):
 
 
 def _msgkey(m):
-    if m == 'EOF':
-        return 'EOF'
+    if m in ('EOF', 'TORN'):
+        return m
     return (m[0], m[1], m[2])
 
 
